@@ -202,7 +202,8 @@ def run_case(chk, case, enumerate_all=False):
                     # this run's own intermediates: chunk files it wrote and the level files
                     own_chunk = {n for n in after if "scores_metadata_" in n and n not in before}
                     pre = f"{obs['prefix']}." if obs["prefix"] else ""
-                    left = sorted(n for n in after if n in (f"psms{ext}", f"peptides{ext}", f"modifiedpeptides{ext}"))
+                    own_levels = ["psms", "peptides"] + [P.LEVEL_FILE[c] for c in obs["levels"]]
+                    left = sorted(n for n in after if n in [f"{ln}{ext}" for ln in own_levels])
                     # a level file that was stale before and is still there unchanged was deleted-by-name: the run
                     # truncates and later unlinks psms.<ext>/peptides.<ext>, so none may remain
                     if own_chunk or left:
@@ -251,30 +252,65 @@ def cli_case(chk, rng):
             chk.spec_violation("cli-temp-left", dict(clause="<pin>.tsv remains after the verify step"))
 
 
+LEVEL_NAMES = ["psms", "peptides", "modifiedpeptides", "precursors", "peptidegroups"]
+
+
+def canon_name(fname, ext):
+    """file name of a real run -> model name (kind, index)"""
+    base = fname.split(".", 1)[1] if fname.split(".")[0] in ("a", "b") and "." in fname else fname
+    if "scores_metadata_" in base:
+        return ("chunk", int(base.split("scores_metadata_")[1].split(".")[0]))
+    for l, ln in enumerate(LEVEL_NAMES):
+        if base == f"{ln}{ext}":
+            return ("level", l)
+        if base == f"targets.{ln}":
+            return ("target", l)
+        if base == f"decoys.{ln}":
+            return ("decoy", l)
+    return ("other", 0)
+
+
 def model_listing(chk, rng):
-    """correspondence with the Lean FsRun model: which kinds of files exist after a run, given stale chunk/level
-    files before it (names only; contents are abstract in the model)"""
-    if not (common.LEAN / "MokapotVerif" / "Ops" / "FsRun.lean").exists():
-        return
-    lines, exp = [], []
-    for k in (1, 2, 4):
-        for nl in (1, 2):
-            for decoys in (True, False):
-                init = [[Atom("chunk"), 7, 5], [Atom("level"), 0, 6], [Atom("chunk"), 0, 9]]
-                lines.append(req("fsrun", k, nl, decoys, init))
-                exp.append((k, nl, decoys))
-    try:
-        resp = common.driver_batch(lines)
-    except Exception as e:
-        chk.corr_break("fsrun", dict(error=str(e)[:200]))
-        return
-    for (k, nl, decoys), r in zip(exp, resp):
-        v = dec(r)
-        txt = r
-        ok = ("chunk 7" in txt.replace("[", " ").replace("]", " ")) and "bad" not in txt
-        chk.case(None, ("fsrun", k, nl, decoys))
-        if not ok:
-            chk.corr_break("fsrun", dict(k=k, nl=nl, decoys=decoys, response=txt[:300]))
+    """correspondence with the Lean FsRun model: the per-file life cycle (truncate, append*, unlink) of every
+    file touched by a real assign_confidence run equals the one of the model's operation list `fsprog k nl decoys`"""
+    for _ in range(3):
+        run = make_run(rng, "trace")
+        with P.workdir() as root:
+            dest = root / "d"; dest.mkdir()
+            try:
+                ctr = execute(run, dest, root)
+            except Exception as e:
+                chk.reject("trace-run-failed:" + type(e).__name__)
+                continue
+            ext = "." + run["fmt"]
+            real = {}
+            for label in ctr["ops"]:
+                op, fname = label.split(":", 1)
+                kind = {"initialize": "trunc", "append_data": "append", "write": "trunc", "unlink": "unlink"}.get(
+                    op.split(".")[-1])
+                if kind is None:
+                    continue
+                nm = canon_name(fname, ext)
+                seq = real.setdefault(nm, [])
+                if kind in ("append", "unlink") and seq and seq[-1] == kind:
+                    continue                      # several appended batches = one append in the model;
+                                                  # Path.unlink is seen a second time through os.unlink
+                if kind == "append" and nm[0] == "chunk" and seq == ["trunc"]:
+                    continue                      # writer.write(df) = initialize + append = one `trunc` with data
+                seq.append(kind)
+            k = sum(1 for nm in real if nm[0] == "chunk")
+            nl = sum(1 for nm in real if nm[0] == "level")
+            resp = common.driver_batch([req("fsprog", k, nl, run["decoys"])])[0]
+            model = {}
+            for item in dec(resp):
+                if item[0] == "read":
+                    continue
+                model.setdefault((item[1], int(item[2])), []).append(item[0])
+            chk.case(None, ("fsprog", k, nl, run["decoys"]), sample=dict(trace_files=len(real), k=k, nl=nl))
+            chk.count("trace", f"k={k} nl={nl}")
+            if real != model:
+                diff = {str(n): (real.get(n), model.get(n)) for n in set(real) | set(model) if real.get(n) != model.get(n)}
+                chk.corr_break("fsprog", dict(run=run, k=k, nl=nl, differing_files=diff, ops=ctr["ops"][:60]))
 
 
 def search(chk):
